@@ -205,6 +205,35 @@ fn ext_inst_cases() -> Vec<Case> {
             out.push(Case { id: format!("ExtInst:{}:{}", setname, n), insts, raw: None, version: 0x0001_0000, bound: 100 });
         }
     }
+    // import histories: every sequence of 1..=3 imports over {GLSL, OpenCL, unknown} (the same set may be imported more
+    // than once), then OpExtInst through every import id and through an id that is no import, with numbers both tables
+    // declare, only one declares, and neither declares
+    let names = ["GLSL.std.450", "OpenCL.std", "NonSemantic.Other"];
+    let mut seqs: Vec<Vec<usize>> = vec![];
+    for a in 0..3 {
+        seqs.push(vec![a]);
+        for b in 0..3 {
+            seqs.push(vec![a, b]);
+            for c in 0..3 {
+                seqs.push(vec![a, b, c]);
+            }
+        }
+    }
+    for sq in seqs {
+        let mut insts: Vec<Inst> = sq.iter().enumerate().map(|(k, &n)| Inst::new("ExtInstImport", None, Some(5 + k as u32), vec![Arg::Str(names[n].to_string())])).collect();
+        insts.push(rep_inst("Function", 1));
+        insts.push(rep_inst("Label", 2));
+        let mut rid = 60;
+        for set in 5..=(5 + sq.len() as u32) {
+            for n in [1u32, 4, 81, 160, 500] {
+                insts.push(Inst::new("ExtInst", Some(50), Some(rid), vec![Arg::IdRef(set), Arg::ExtInstNo(n), Arg::IdRef(61)]));
+                rid += 1;
+            }
+        }
+        insts.push(rep_inst("Return", 3));
+        insts.push(rep_inst("FunctionEnd", 4));
+        out.push(Case { id: format!("ExtInst:imports{:?}", sq), insts, raw: None, version: 0x0001_0000, bound: 100 });
+    }
     out
 }
 
